@@ -40,6 +40,10 @@ pub struct InstallManifestBuilder {
     tags: Vec<InstallTag>,
     entries: Vec<InstallFileEntry>,
     tag_name_to_index: HashMap<String, usize>,
+    /// Header of the manifest this builder was created from (`None` for a new
+    /// builder, which produces V1). Keeps the format version and the V2-only
+    /// header fields so that entries and header stay consistent.
+    base_header: Option<InstallHeader>,
 }
 
 impl InstallManifestBuilder {
@@ -49,6 +53,7 @@ impl InstallManifestBuilder {
             tags: Vec::new(),
             entries: Vec::new(),
             tag_name_to_index: HashMap::new(),
+            base_header: None,
         }
     }
 
@@ -65,6 +70,7 @@ impl InstallManifestBuilder {
             tags: manifest.tags.clone(),
             entries: manifest.entries.clone(),
             tag_name_to_index,
+            base_header: Some(manifest.header.clone()),
         }
     }
 
@@ -94,7 +100,14 @@ impl InstallManifestBuilder {
     /// All existing tag bit masks are resized to accommodate the new file.
     #[must_use]
     pub fn add_file(mut self, path: String, content_key: ContentKey, file_size: u32) -> Self {
-        let entry = InstallFileEntry::new(path, content_key, file_size);
+        // V2 entries carry a file type byte; keep new entries consistent with
+        // the version of the manifest this builder was created from.
+        let is_v2 = self.base_header.as_ref().is_some_and(|h| h.version >= 2);
+        let entry = if is_v2 {
+            InstallFileEntry::new_v2(path, content_key, file_size, 0)
+        } else {
+            InstallFileEntry::new(path, content_key, file_size)
+        };
         self.entries.push(entry);
 
         // Resize all tag bit masks to accommodate new file
@@ -244,12 +257,18 @@ impl InstallManifestBuilder {
     ///
     /// Creates the header with current counts and validates the result.
     pub fn build(self) -> Result<InstallManifest> {
-        let header = InstallHeader::new(
-            u16::try_from(self.tags.len())
-                .map_err(|_| InstallError::TagNotFound("Too many tags".to_string()))?,
-            u32::try_from(self.entries.len())
-                .map_err(|_| InstallError::TagNotFound("Too many entries".to_string()))?,
-        );
+        let tag_count = u16::try_from(self.tags.len())
+            .map_err(|_| InstallError::TagNotFound("Too many tags".to_string()))?;
+        let entry_count = u32::try_from(self.entries.len())
+            .map_err(|_| InstallError::TagNotFound("Too many entries".to_string()))?;
+        let header = match self.base_header {
+            Some(mut header) => {
+                header.tag_count = tag_count;
+                header.entry_count = entry_count;
+                header
+            }
+            None => InstallHeader::new(tag_count, entry_count),
+        };
 
         let manifest = InstallManifest {
             header,
@@ -358,6 +377,7 @@ impl InstallManifestBuilder {
             tags: self.tags.clone(),
             entries: self.entries.clone(),
             tag_name_to_index: self.tag_name_to_index.clone(),
+            base_header: self.base_header.clone(),
         }
     }
 }
@@ -372,6 +392,49 @@ impl Default for InstallManifestBuilder {
 #[allow(clippy::expect_used, clippy::unwrap_used)]
 mod tests {
     use super::*;
+
+    #[test]
+    fn test_from_manifest_keeps_v2_layout() {
+        let key = ContentKey::from_hex("0123456789abcdef0123456789abcdef")
+            .expect("Operation should succeed");
+        let v1 = InstallManifestBuilder::new()
+            .add_tag("Windows".to_string(), TagType::Platform)
+            .add_file("a.bin".to_string(), key, 10)
+            .add_file("b.bin".to_string(), key, 20)
+            .associate_file_with_tag(1, "Windows")
+            .expect("Operation should succeed")
+            .build()
+            .expect("Operation should succeed");
+        let v2 = InstallManifest {
+            header: InstallHeader::new_v2(1, 2, 20, 0),
+            tags: v1.tags.clone(),
+            entries: v1
+                .entries
+                .iter()
+                .map(|e| InstallFileEntry::new_v2(e.path.clone(), e.content_key, e.file_size, 3))
+                .collect(),
+        };
+        let parsed = InstallManifest::parse(&v2.build().expect("Operation should succeed"))
+            .expect("Operation should succeed");
+
+        let rebuilt = InstallManifestBuilder::from_manifest(&parsed)
+            .add_file("c.bin".to_string(), key, 30)
+            .build()
+            .expect("Operation should succeed");
+        assert_eq!(rebuilt.header.version, 2);
+
+        let data = rebuilt.build().expect("Operation should succeed");
+        let reparsed = InstallManifest::parse(&data).expect("Operation should succeed");
+        let paths: Vec<&str> = reparsed.entries.iter().map(|e| e.path.as_str()).collect();
+        assert_eq!(paths, vec!["a.bin", "b.bin", "c.bin"]);
+        let windows: Vec<usize> = reparsed
+            .get_files_for_tag("Windows")
+            .into_iter()
+            .map(|(i, _)| i)
+            .collect();
+        assert_eq!(windows, vec![1]);
+        InstallManifest::verify_round_trip(&data).expect("Operation should succeed");
+    }
 
     #[test]
     fn test_builder_new() {
